@@ -40,8 +40,16 @@ def _ctor_units():
     return [('contracts.ctor', 'Init', (cls,), {'edge_removal': e}) for cls in ('DynGraph', 'DynDiGraph') for e in ('default', 'given')]
 
 
+def _dag_units():
+    return [('contracts.dag', 'TemporalDagWindow', (cls,), {'start': s, 'end': e}) for cls in ('DynGraph', 'DynDiGraph')
+            for s in ('none', 'int') for e in ('none', 'int')]
+
+
 # property id -> list of (module, factory, args, variant)
 PROOF_UNITS = {
+    'C15': _dag_units(),
+    'C12': _dag_units(),
+    'C13': _dag_units(),
     'C01': _kernel_units('removal') + _observer_units('removal') + _bulk_units() + _ctor_units(),
     'C03': _kernel_units('removal') + _ctor_units(),
     'C04': _kernel_units('removal') + _read_units(),
